@@ -1,7 +1,14 @@
 (* Extraction of the executable models to OCaml for the correspondence check.
-   ExtrOcamlBasic only: Z, positive, nat stay the extracted inductives. *)
+   ExtrOcamlBasic only: Z, positive, nat stay the extracted inductives.
+   Depends on model/spec files only, never on proof files. *)
 From Coq Require Import ExtrOcamlBasic.
-From Verif Require Import Base.GoInt Iso8601.Ext Generated.Iso8601Gen Iso8601.Spec.
+From Verif Require Import Base.GoInt.
+From Verif Require Import Iso8601.Ext Generated.Iso8601Gen Iso8601.Spec.
+From Verif Require Import Generated.AsmAsciiGen Ascii.AsmTotal Generated.AsciiGen Ascii.Spec.
 Extraction Language OCaml.
 Extraction "model.ml"
-  iso8601_Parse iso8601_Valid time_parse rfc3339nano_layout iso_spec.
+  iso8601_Parse iso8601_Valid time_parse rfc3339nano_layout iso_spec
+  ascii_Valid ascii_ValidString ascii_ValidPrint ascii_ValidPrintString ascii_EqualFold ascii_EqualFoldString
+  ascii_HasPrefixFold ascii_HasPrefixFoldString ascii_HasSuffixFold ascii_HasSuffixFoldString
+  ascii_ValidByte ascii_ValidRune ascii_ValidPrintByte ascii_ValidPrintRune
+  is_ascii is_print fold_eq has_prefix_fold has_suffix_fold.
